@@ -56,7 +56,7 @@ def floors(tier):
     return {"cases": 20000, "no_checker_cases": 3000, "with_checker_cases": 10000, "unknown_name_cases": 1000,
             "nonstring_builtin_cases": 2000, "custom_return_cases": 300, "listed_raise_cases": 100,
             "unlisted_raise_cases": 1000, "subclass_raise_cases": 100, "format_errors_seen": 2000, "nested_cases": 3000, "stateful_sequence_calls": 3000, "reregistration_cases": 60,
-            "raise_cases_under_applicators": 1000, "metaschema_format_cases": 200, "late_registration_cases": 40, "passing_checks_on_unrenderable_instances": 150, "checker_passed_by_position": 2000}
+            "raise_cases_under_applicators": 1000, "metaschema_format_cases": 200, "late_registration_cases": 40, "passing_checks_on_unrenderable_instances": 150, "checker_passed_by_position": 2000, "custom_functions_under_odd_names": 800}
 
 
 def wrappers(d, fmt):
@@ -153,17 +153,20 @@ def _strip_format(s):
 def custom_cases(ctx, rng, d):
     cls = impl.CLS[d]
     # return values
-    for r in RETURNS:
+    # (a format may be called anything: also the empty string, a blank, something that reads like a falsy value)
+    for r, fname in [(r, "custom") for r in RETURNS] + [(r, nm) for r in (True, False, 0, None, "x") for nm in ("", " ", "0", "False", "null", "date")]:
         chk = jsonschema.FormatChecker(formats=())
-        chk.checks("custom")(lambda instance, r=r: r)
+        chk.checks(fname)(lambda instance, r=r: r)
         for inst in ("x", 5, None, [], [1, "x"], {}, {"a": 1}, True, 1.5):
-            case = {"draft": d, "custom_returns": repr(r), "instance": inst}
-            ctx.case([d, "ret", repr(r), inst])
+            case = {"draft": d, "custom_returns": repr(r), "instance": inst, "format_name": fname}
+            ctx.case([d, "ret", repr(r), inst, fname])
             ctx.count("cases")
             ctx.count("custom_return_cases")
+            if fname != "custom":
+                ctx.count("custom_functions_under_odd_names")
             try:
-                errs = list(cls({"format": "custom"}, format_checker=chk).iter_errors(inst))
-                conf = chk.conforms(inst, "custom")
+                errs = list(cls({"format": fname}, format_checker=chk).iter_errors(inst))
+                conf = chk.conforms(inst, fname)
             except Exception as e:
                 ctx.violation("raised", case, "%s" % type(e).__name__)
                 continue
